@@ -8,8 +8,13 @@
 
 #[derive(Default)]
 pub struct Ctx {
+    /// dense forced prefix (replays from a descriptor)
     forced: Vec<u32>,
-    forced_n: Vec<u32>,
+    /// sparse forced prefix used by `explore`: (point index, choice, alternatives seen there), ascending; every
+    /// other point below `forced_len` takes 0. (A dense prefix per pending branch would need memory quadratic
+    /// in the number of points: 70 000 one-byte reads x 5 alternatives were 98 GB.)
+    sparse: Vec<(u32, u32, u32)>,
+    forced_len: usize,
     taken: Vec<u32>,
     alts: Vec<u32>,
     /// set when a replayed prefix met a different number of alternatives than recorded
@@ -19,22 +24,32 @@ pub struct Ctx {
 impl Ctx {
     pub fn with_forced(forced: Vec<u32>) -> Self {
         let n = forced.len();
-        Ctx { forced, forced_n: vec![0; n], ..Default::default() }
+        Ctx { forced, forced_len: n, ..Default::default() }
     }
 
     /// Environment choice point with `n >= 1` alternatives; returns the chosen alternative.
     pub fn point(&mut self, n: u32) -> u32 {
         debug_assert!(n >= 1);
         let i = self.taken.len();
-        let c = if i < self.forced.len() {
-            if self.forced_n[i] != 0 && self.forced_n[i] != n {
-                self.diverged = true;
-            }
-            if self.forced[i] >= n {
+        let c = if i < self.forced_len {
+            let want = if !self.forced.is_empty() {
+                self.forced[i]
+            } else {
+                match self.sparse.iter().find(|e| e.0 as usize == i) {
+                    Some(e) => {
+                        if e.2 != n {
+                            self.diverged = true;
+                        }
+                        e.1
+                    }
+                    None => 0,
+                }
+            };
+            if want >= n {
                 self.diverged = true;
                 0
             } else {
-                self.forced[i]
+                want
             }
         } else {
             0
@@ -114,15 +129,14 @@ impl Stats {
 /// cap is hit `capped` is set and the exploration is NOT exhaustive).
 pub fn explore<F: FnMut(&mut Ctx)>(bound: u32, max_runs: u64, mut f: F) -> Stats {
     let mut st = Stats { by_devs: vec![0; bound as usize + 1], ..Default::default() };
-    // stack of (prefix choices, prefix alts)
-    let mut stack: Vec<(Vec<u32>, Vec<u32>)> = vec![(vec![], vec![])];
-    while let Some((prefix, prefix_n)) = stack.pop() {
+    // stack of (sparse prefix = the deviations so far, prefix length)
+    let mut stack: Vec<(Vec<(u32, u32, u32)>, usize)> = vec![(vec![], 0)];
+    while let Some((sparse, plen)) = stack.pop() {
         if st.runs >= max_runs {
             st.capped = true;
             break;
         }
-        let plen = prefix.len();
-        let mut ctx = Ctx { forced: prefix, forced_n: prefix_n, ..Default::default() };
+        let mut ctx = Ctx { sparse, forced_len: plen, ..Default::default() };
         f(&mut ctx);
         st.runs += 1;
         st.points += ctx.taken.len() as u64;
@@ -140,11 +154,9 @@ pub fn explore<F: FnMut(&mut Ctx)>(bound: u32, max_runs: u64, mut f: F) -> Stats
         // smaller alternatives are explored first
         for i in (plen..ctx.taken.len()).rev() {
             for alt in (1..ctx.alts[i]).rev() {
-                let mut p = ctx.taken[..i].to_vec();
-                p.push(alt);
-                let mut pn = ctx.alts[..i].to_vec();
-                pn.push(ctx.alts[i]);
-                stack.push((p, pn));
+                let mut p = ctx.sparse.clone();
+                p.push((i as u32, alt, ctx.alts[i]));
+                stack.push((p, i + 1));
             }
         }
     }
@@ -164,6 +176,20 @@ mod tests {
         });
         assert_eq!(st.runs, 19);
         assert_eq!(st.by_devs, vec![1, 6, 12]);
+    }
+    #[test]
+    fn sparse_prefix_is_replayed() {
+        // the run that deviates at point 1 (choice 2) and point 3 (choice 1) must be produced exactly once
+        let mut seen = 0;
+        explore(2, u64::MAX, |c| {
+            for _ in 0..5 {
+                c.point(3);
+            }
+            if c.desc() == "1=2,3=1" {
+                seen += 1;
+            }
+        });
+        assert_eq!(seen, 1);
     }
     #[test]
     fn desc_roundtrip() {
